@@ -50,6 +50,9 @@ impl Copy for Value {}
 impl Value {
     pub uninterp spec fn nil() -> Value;                       // Value::None, the language's nil (Value::default())
     pub uninterp spec fn closure(g: Gc<ObjClosure>) -> Value;
+    pub uninterp spec fn as_fiber(&self) -> Option<Gc<RefCell<ObjFiber>>>;
+    #[verifier::external_body]
+    fn try_as_obj_fiber(&self) -> (r: Option<Gc<RefCell<ObjFiber>>>) ensures r == self.as_fiber() { unimplemented!() }
     #[verifier::external_body] #[allow(non_snake_case)]
     fn ObjClosure(g: Gc<ObjClosure>) -> (r: Value) ensures r == Value::closure(g) { unimplemented!() }
 }
@@ -70,7 +73,7 @@ fn verif_error(kind: ErrorKind) -> (e: Error) ensures e.kind == kind { Error { k
 pub struct StackS { pub ghost view: Seq<Value> }
 
 //@struct file=yarel/src/object.rs name=CallFrame map "*const u8" => "usize"
-//@struct file=yarel/src/object.rs name=ObjFiber keepfields=caller,stack,frames,handling_exception map "Stack<Value, STACK_MAX>" => "StackS"
+//@struct file=yarel/src/object.rs name=ObjFiber keepfields=caller,stack,frames,handling_exception,call_arity map "Stack<Value, STACK_MAX>" => "StackS"
 impl ObjFiber {
     //@fn file=yarel/src/object.rs path=ObjFiber::has_finished ret=r
     //@  ensures r == (self.frames@.len() == 0)
@@ -84,7 +87,7 @@ impl ObjFiber {
     fn current_frame_mut(&mut self) -> (r: Option<&mut CallFrame>)
         requires old(self).frames@.len() > 0
         ensures r matches Some(f) && *f == old(self).frames@.last() && final(self).frames@ == old(self).frames@.drop_last().push(*final(f)),
-            final(self).stack == old(self).stack, final(self).caller == old(self).caller, final(self).handling_exception == old(self).handling_exception,
+            final(self).stack == old(self).stack, final(self).caller == old(self).caller, final(self).handling_exception == old(self).handling_exception, final(self).call_arity == old(self).call_arity,
     { unimplemented!() }
 }
 
@@ -124,7 +127,7 @@ impl Vm {
     fn clear_caller(&mut self, current: Option<Root<RefCell<ObjFiber>>>)
         requires current matches Some(c) && old(self).heap.dom().contains(c.id())
         ensures old(self).handles_same(final(self)),
-            final(self).heap == old(self).heap.insert(current->0.id(), ObjFiber { caller: None, stack: old(self).heap[current->0.id()].stack, frames: old(self).heap[current->0.id()].frames, handling_exception: old(self).heap[current->0.id()].handling_exception }),
+            final(self).heap == old(self).heap.insert(current->0.id(), ObjFiber { caller: None, stack: old(self).heap[current->0.id()].stack, frames: old(self).heap[current->0.id()].frames, handling_exception: old(self).heap[current->0.id()].handling_exception, call_arity: old(self).heap[current->0.id()].call_arity }),
     { unimplemented!() }
 
     // operand-stack helpers of the ACTIVE fiber (vm.rs push/pop/poke: proved against Stack's contract in unit `exc`)
@@ -132,19 +135,19 @@ impl Vm {
     fn pop(&mut self) -> (r: Value)
         requires old(self).fiber is Some, old(self).heap.dom().contains(old(self).active_id()), old(self).active().stack.view.len() > 0
         ensures old(self).handles_same(final(self)), r == old(self).active().stack.view.last(),
-            final(self).heap == old(self).heap.insert(old(self).active_id(), ObjFiber { caller: old(self).active().caller, stack: StackS { view: old(self).active().stack.view.drop_last() }, frames: old(self).active().frames, handling_exception: old(self).active().handling_exception }),
+            final(self).heap == old(self).heap.insert(old(self).active_id(), ObjFiber { caller: old(self).active().caller, stack: StackS { view: old(self).active().stack.view.drop_last() }, frames: old(self).active().frames, handling_exception: old(self).active().handling_exception, call_arity: old(self).active().call_arity }),
     { unimplemented!() }
     #[verifier::external_body]
     fn push(&mut self, value: Value)
         requires old(self).fiber is Some, old(self).heap.dom().contains(old(self).active_id()), old(self).active().stack.view.len() < STACK_MAX
         ensures old(self).handles_same(final(self)),
-            final(self).heap == old(self).heap.insert(old(self).active_id(), ObjFiber { caller: old(self).active().caller, stack: StackS { view: old(self).active().stack.view.push(value) }, frames: old(self).active().frames, handling_exception: old(self).active().handling_exception }),
+            final(self).heap == old(self).heap.insert(old(self).active_id(), ObjFiber { caller: old(self).active().caller, stack: StackS { view: old(self).active().stack.view.push(value) }, frames: old(self).active().frames, handling_exception: old(self).active().handling_exception, call_arity: old(self).active().call_arity }),
     { unimplemented!() }
     #[verifier::external_body]
     fn poke(&mut self, depth: usize, value: Value)
         requires old(self).fiber is Some, old(self).heap.dom().contains(old(self).active_id()), depth < old(self).active().stack.view.len()
         ensures old(self).handles_same(final(self)),
-            final(self).heap == old(self).heap.insert(old(self).active_id(), ObjFiber { caller: old(self).active().caller, stack: StackS { view: old(self).active().stack.view.update(old(self).active().stack.view.len() - 1 - depth, value) }, frames: old(self).active().frames, handling_exception: old(self).active().handling_exception }),
+            final(self).heap == old(self).heap.insert(old(self).active_id(), ObjFiber { caller: old(self).active().caller, stack: StackS { view: old(self).active().stack.view.update(old(self).active().stack.view.len() - 1 - depth, value) }, frames: old(self).active().frames, handling_exception: old(self).active().handling_exception, call_arity: old(self).active().call_arity }),
     { unimplemented!() }
     // ip := saved ip of the active fiber's current frame (plus active chunk / module, not modelled)
     #[verifier::external_body]
@@ -177,6 +180,7 @@ impl Vm {
     //@  ensures @caller_link r is Ok ==> (old(self).fiber is None ==> final(self).heap[fiber.id()].caller is None) && (old(self).fiber matches Some(c) ==> (final(self).heap[fiber.id()].caller matches Some(g) && g.id() == c.id()))
     //@  ensures @argument_becomes_pending_yield_value (r is Ok && old(self).heap[fiber.id()].stack.view.len() > 0 && final(self).heap[fiber.id()].stack.view.len() == old(self).heap[fiber.id()].stack.view.len()) ==> final(self).heap[fiber.id()].stack.view == old(self).heap[fiber.id()].stack.view.update(old(self).heap[fiber.id()].stack.view.len() - 1, if arg is Some { arg->0 } else { Value::nil() })
     //@  ensures @new_fiber_gets_closure_and_argument (r is Ok && final(self).heap[fiber.id()].stack.view.len() != old(self).heap[fiber.id()].stack.view.len()) ==> old(self).heap[fiber.id()].frames@.len() == 1 && final(self).heap[fiber.id()].stack.view == (if arg is Some { old(self).heap[fiber.id()].stack.view.push(Value::closure(old(self).heap[fiber.id()].frames@[0].closure)).push(arg->0) } else { old(self).heap[fiber.id()].stack.view.push(Value::closure(old(self).heap[fiber.id()].frames@[0].closure)) })
+    //@  ensures r is Ok ==> final(self).wf() && final(self).heap[fiber.id()].stack.view.len() > 0
     //@  ensures @callee_frames_kept r is Ok ==> final(self).heap[fiber.id()].frames == old(self).heap[fiber.id()].frames && final(self).ip == old(self).heap[fiber.id()].frames@.last().ip
     //@  ensures @caller_suspended_after_argument_removed (r is Ok && old(self).fiber is Some) ==> final(self).heap[old(self).active_id()].stack.view == (if arg is Some { old(self).active().stack.view.drop_last() } else { old(self).active().stack.view }) && final(self).heap[old(self).active_id()].frames@.last().ip == old(self).ip && final(self).heap[old(self).active_id()].frames@.drop_last() == old(self).active().frames@.drop_last() && final(self).heap[old(self).active_id()].caller == old(self).active().caller
     //@  ensures @other_fibers_untouched forall|i: int| old(self).heap.dom().contains(i) && i != fiber.id() && !(old(self).fiber is Some && i == old(self).active_id()) ==> final(self).heap.dom().contains(i) && final(self).heap[i] == old(self).heap[i]
@@ -199,12 +203,48 @@ impl Vm {
     //@  ensures @rejected_yield_keeps_fibers r is Err ==> final(self).fiber == old(self).fiber && final(self).unsafe_fiber == old(self).unsafe_fiber && final(self).heap.dom() == old(self).heap.dom() && final(self).active().caller == old(self).active().caller && final(self).active().frames@.len() == old(self).active().frames@.len() && (forall|i: int| old(self).heap.dom().contains(i) && i != old(self).active_id() ==> final(self).heap[i] == old(self).heap[i])
     //@  ensures @caller_becomes_active r is Ok ==> (final(self).fiber matches Some(x) && x.id() == old(self).active().caller->0.id()) && final(self).unsafe_fiber.cell == old(self).active().caller->0.id()
     //@  ensures @argument_becomes_result_of_call r is Ok ==> final(self).active().stack.view == old(self).heap[old(self).active().caller->0.id()].stack.view.update(old(self).heap[old(self).active().caller->0.id()].stack.view.len() - 1, if arg is Some { arg->0 } else { Value::nil() })
+    //@  ensures r is Ok ==> final(self).wf() && final(self).heap.dom().contains(final(self).active_id()) && final(self).active().stack.view.len() > 0
     //@  ensures @caller_continues_where_it_called r is Ok ==> final(self).active().frames == old(self).heap[old(self).active().caller->0.id()].frames && final(self).ip == final(self).active().frames@.last().ip && final(self).active().caller == old(self).heap[old(self).active().caller->0.id()].caller
     //@  ensures @yielding_fiber_suspended r is Ok ==> final(self).heap[old(self).active_id()].caller is None && final(self).heap[old(self).active_id()].stack.view == (if arg is Some { old(self).active().stack.view.drop_last() } else { old(self).active().stack.view }) && (old(self).active().frames@.len() > 0 ==> final(self).heap[old(self).active_id()].frames@.last().ip == old(self).ip && final(self).heap[old(self).active_id()].frames@.drop_last() == old(self).active().frames@.drop_last()) && (old(self).active().frames@.len() == 0 ==> final(self).heap[old(self).active_id()].frames == old(self).active().frames)
     //@  ensures @other_fibers_untouched r is Ok ==> forall|i: int| old(self).heap.dom().contains(i) && i != old(self).active_id() && i != old(self).active().caller->0.id() ==> final(self).heap.dom().contains(i) && final(self).heap[i] == old(self).heap[i]
     //@  ensures @exception_in_flight_stays_with_its_fiber r is Ok ==> final(self).handling_exception == old(self).heap[old(self).active().caller->0.id()].handling_exception && final(self).heap[old(self).active_id()].handling_exception == old(self).handling_exception
     //@end
+    #[verifier::external_body]
+    fn peek(&self, depth: usize) -> (r: Value)
+        requires self.fiber is Some, self.heap.dom().contains(self.active_id()), depth < self.active().stack.view.len()
+        ensures r == self.active().stack.view[self.active().stack.view.len() - 1 - depth]
+    { unimplemented!() }
 }
+
+//@fn file=yarel/src/core.rs path=check_num_args ret=r
+//@  rewrite R1
+//@  ensures r is Ok <==> num_args == expected
+//@  ensures r matches Err(e) ==> e.kind is TypeError
+//@end
+
+// Fiber.call(args…): a wrong argument count is a TypeError and no fiber is touched; otherwise the (single, optional)
+// argument is handed to Vm::load_fiber together with the receiver fiber.
+//@fn file=yarel/src/core.rs path=fiber_call ret=r
+//@  rewrite R1
+//@  subst ".try_as_obj_fiber() .expect(\"Expected ObjFiber.\")" => ".try_as_obj_fiber().unwrap()"
+//@  subst "let borrowed_fiber = fiber.borrow();" => "let borrowed_fiber = vm.fiber_content(fiber);"
+//@  requires old(vm).wf(), old(vm).fiber is Some, num_args < old(vm).active().stack.view.len(), old(vm).active().frames@.len() > 0
+//@  requires old(vm).active().stack.view[old(vm).active().stack.view.len() - 1 - num_args].as_fiber() matches Some(f) && old(vm).heap.dom().contains(f.id()) && old(vm).heap[f.id()].call_arity >= 1 && old(vm).heap[f.id()].stack.view.len() + 2 <= STACK_MAX && (!old(vm).heap[f.id()].new_fiber() ==> old(vm).heap[f.id()].stack.view.len() > 0) && (old(vm).active_id() != f.id() || old(vm).heap[f.id()].caller is Some || old(vm).heap[f.id()].frames@.len() == 0)
+//@  ensures @wrong_argument_count_is_a_type_error_and_touches_no_fiber ({ let f = old(vm).active().stack.view[old(vm).active().stack.view.len() - 1 - num_args].as_fiber()->0; (if old(vm).heap[f.id()].new_fiber() { num_args != old(vm).heap[f.id()].call_arity - 1 } else { num_args > 1 }) ==> (r matches Err(e) && e.kind is TypeError) && final(vm).heap == old(vm).heap && old(vm).handles_same(final(vm)) })
+//@  ensures @a_rejected_call_leaves_every_fiber_untouched r is Err ==> final(vm).heap == old(vm).heap && old(vm).handles_same(final(vm))
+//@  ensures @an_accepted_call_makes_the_receiver_the_active_fiber r is Ok ==> (final(vm).fiber matches Some(x) && x.id() == old(vm).active().stack.view[old(vm).active().stack.view.len() - 1 - num_args].as_fiber()->0.id())
+//@end
+
+// Fiber.yield(arg?): more than one argument is a TypeError and no fiber is touched; yielding outside any fiber is the
+// error Vm::unload_fiber reports.
+//@fn file=yarel/src/core.rs path=fiber_yield ret=r
+//@  rewrite R1
+//@  requires old(vm).wf(), old(vm).fiber is Some, num_args < old(vm).active().stack.view.len() || num_args == 0
+//@  requires old(vm).active().caller matches Some(c) ==> old(vm).heap.dom().contains(c.id()) && c.id() != old(vm).active_id() && old(vm).heap[c.id()].stack.view.len() > 0 && old(vm).heap[c.id()].frames@.len() > 0
+//@  ensures @too_many_arguments_is_a_type_error_and_touches_no_fiber num_args > 1 ==> (r matches Err(e) && e.kind is TypeError) && final(vm).heap == old(vm).heap && old(vm).handles_same(final(vm))
+//@  ensures @yield_outside_a_fiber_is_an_error (num_args <= 1 && old(vm).active().caller is None) ==> r is Err
+//@  ensures @yield_hands_control_back_to_the_caller (num_args <= 1 && old(vm).active().caller is Some) ==> (final(vm).fiber matches Some(x) && x.id() == old(vm).active().caller->0.id())
+//@end
 
 } // verus!
 fn main() {}
